@@ -47,8 +47,10 @@ func cmdCrashChild(f hx.Flags, r *hx.Result) {
 		dir = "."
 	}
 	rollingLogger := kind == "rollinglogger" // the RollingFile logger kind (synchronous), not an appender behind a Logger
-	realRot := kind == "rolling" && f.Str("realrot", "") != ""
-	if realRot { // real one-second rotations with the shortest retention, in a zone far west of UTC
+	realRot := (kind == "rolling" || rollingLogger) && f.Str("realrot", "") != ""
+	separate := rollingLogger && f.Str("separate", "") != "" // WARN and above go to the sibling file <name>.wf
+	poison := f.Int("poison", 0)                             // every poison-th call carries a value whose encoding panics
+	if realRot {                                             // real one-second rotations with the shortest retention, in a zone far west of UTC
 		time.Local = time.FixedZone("WEST", -11*3600)
 	}
 	tag := log.RegisterTag("crash_tag")
@@ -98,8 +100,14 @@ func cmdCrashChild(f hx.Flags, r *hx.Result) {
 		refs = append(refs, sys.Ref{Ref: "out2"})
 	}
 	if rollingLogger {
-		cfg.AddLogger("lg", "RollingFile", "", "crash_tag", nil, false, map[string]string{"fileDir": dir, "fileName": "c.log", "rotation": "h",
-			"layout.type": layout})
+		rl := map[string]string{"fileDir": dir, "fileName": "c.log", "rotation": "h", "layout.type": layout}
+		if realRot {
+			rl["rotation"] = "sec" // retention left at the logger's default
+		}
+		if separate {
+			rl["separate"] = "true"
+		}
+		cfg.AddLogger("lg", "RollingFile", "", "crash_tag", nil, false, rl)
 	} else {
 		cfg.AddLogger("lg", "Logger", "", "crash_tag", refs, twin, ex)
 	}
@@ -161,7 +169,29 @@ func cmdCrashChild(f hx.Flags, r *hx.Result) {
 					if padFixed > 0 {
 						pad = strings.Repeat("s", padFixed)
 					}
-					log.Info(ctx, tag, log.Int("id", id), log.String("pad", pad), log.Int("end", id))
+					fields := []log.Field{log.Int("id", id), log.String("pad", pad), log.Int("end", id)}
+					returned := true
+					if poison > 0 && i%poison == 0 {
+						// this call cannot be encoded; if it nevertheless returns like any other it is acknowledged like any other
+						fields = []log.Field{log.Int("id", id), log.String("pad", pad), log.Reflect("bad", crashPoison{}), log.Int("end", id)}
+						returned = false
+					}
+					func() {
+						defer func() {
+							if recover() != nil {
+								returned = false
+							}
+						}()
+						if separate && i%2 == 0 {
+							log.Warn(ctx, tag, fields...)
+						} else {
+							log.Info(ctx, tag, fields...)
+						}
+						returned = true
+					}()
+					if !returned {
+						continue // the call panicked: nothing was acknowledged to the caller
+					}
 				}
 				// the call has returned: acknowledge it
 				mu.Lock()
@@ -186,6 +216,13 @@ func cmdCrashChild(f hx.Flags, r *hx.Result) {
 	os.Exit(0)
 }
 
+// crashPoison cannot be encoded: its MarshalJSON panics.
+type crashPoison struct{}
+
+func (crashPoison) MarshalJSON() ([]byte, error) {
+	panic("crash harness: value that cannot be encoded")
+}
+
 type crashCase struct {
 	Goroutines int    `json:"goroutines"`
 	Calls      int    `json:"calls"`
@@ -205,7 +242,7 @@ func cmdCrash(f hx.Flags, r *hx.Result) {
 	kinds := []string{"file", "rolling", "console", "rollinglogger"}
 	layouts := []string{"TextLayout", "JSONLayout"}
 	n := 0
-	rollVar := 0
+	rollVar, rlVar, rlRot := 0, 0, 0
 	sigs := map[string]bool{}
 	err = hx.ReadCases(f.Str("cases", ""), func(raw json.RawMessage) error {
 		var c crashCase
@@ -226,8 +263,22 @@ func cmdCrash(f hx.Flags, r *hx.Result) {
 			if n%2 == 0 {
 				args = append(args, "--layoutat", "logger")
 			}
-			if n%3 == 0 && layout == "TextLayout" {
+			rawEvery := n%3 == 0 && layout == "TextLayout"
+			if rawEvery {
 				args = append(args, "--rawevery", "3")
+			}
+			if n%5 == 1 {
+				args = append(args, "--poison", "4")
+			}
+			if kind == "rollinglogger" && !rawEvery {
+				// the RollingFile logger with its sibling <name>.wf; placements with several acknowledged calls additionally
+				// cross a real one-second rotation (and the retention scan it launches) before the crash
+				rlVar++
+				args = append(args, "--separate", "1")
+				if c.Calls >= 3 && c.K >= 3 && rlVar%2 == 1 {
+					args = append(args, "--realrot", "1")
+					rlRot++
+				}
 			}
 			if kind == "rolling" {
 				// variants of the rolling appender, chosen so that placements with several acknowledged calls meet each:
@@ -346,4 +397,7 @@ func cmdCrash(f hx.Flags, r *hx.Result) {
 		r.SetInfra("read cases: %v", err)
 	}
 	r.NonTrivial(int64(len(sigs)))
+	if rlVar > 6 && rlRot == 0 {
+		r.SetInfra("no placement exercised the RollingFile logger across a real rotation")
+	}
 }
